@@ -804,10 +804,11 @@ class OvldMC(type):
                 v for v in ovlds[1:] if getattr(v, "_extend_super", False)
             ]
             if mixins:
-                o = ovlds[0].copy(mixins=mixins)
+                # Plain functions of the bases are inherited like the marked
+                # overloads are, as mixins: registered directly they would
+                # take precedence over the definitions of the class itself
                 others = [v for v in values if v is not None and not is_ovld(v)]
-                for other in others:
-                    o.register(other)
+                o = ovlds[0].copy(mixins=[*mixins, *map(to_ovld, others)])
                 o.rename(name)
                 d[name] = o
 
